@@ -9,7 +9,7 @@ seeded = '--seeded' in sys.argv
 items = []
 results = []
 if seeded:
-    for d in sorted(glob.glob(os.path.join(V, 'seeded', '*'))):
+    for d in sorted(x for x in glob.glob(os.path.join(V, 'seeded', '*')) if os.path.isdir(x)):
         meta = json.load(open(os.path.join(d, 'meta.json')))
         if not args or meta['property'] in args:
             if meta.get('obsolete'):
